@@ -589,11 +589,13 @@ func c19Transform(c *Ctx) {
 
 // ------------------------------------------------------------------------------ R19e
 
+var c19RuleAttr = "R19e"
+
 func c19AttrOrder(c *Ctx) {
 	p := c.P
 	w := c19Walker(p)
 	if w == nil {
-		c.Undecided("R19e", "attribute walker", "-", "no function reachable from SerializeCanonical sorts attributes")
+		c.Undecided(c19RuleAttr, "attribute walker", "-", "no function reachable from SerializeCanonical sorts attributes")
 		return
 	}
 	var less *ssa.Function
@@ -603,7 +605,7 @@ func c19AttrOrder(c *Ctx) {
 		}
 	}
 	if less == nil {
-		c.Undecided("R19e", "attribute ordering function", p.Pos(w.Pos()), "the closure passed to sort.Slice was not found")
+		c.Undecided(c19RuleAttr, "attribute ordering function", p.Pos(w.Pos()), "the closure passed to sort.Slice was not found")
 		return
 	}
 	// a closure that only hands its two elements to a named comparison of the package: judge that
@@ -655,9 +657,9 @@ func c19AttrOrder(c *Ctx) {
 			}
 		}
 	}
-	c.Check(leak == "", "R19e", "namespace lookup is scoped to the element", p.Pos(less.Pos()), "no walk-wide binding table feeds the comparator",
+	c.Check(leak == "", c19RuleAttr, "namespace lookup is scoped to the element", p.Pos(less.Pos()), "no walk-wide binding table feeds the comparator",
 		"the comparator resolves prefixes through a map that the recursive walk only ever adds to (lookup at "+leak+"): a prefix re-bound inside one subtree keeps its inner URI for every element visited afterwards, so attributes outside that subtree are ordered by the wrong namespace")
-	c.Check(resolves, "R19e", "attribute order resolves namespace URIs", p.Pos(less.Pos()), "the comparator looks the prefix's declaration up",
+	c.Check(resolves, c19RuleAttr, "attribute order resolves namespace URIs", p.Pos(less.Pos()), "the comparator looks the prefix's declaration up",
 		"attributes are ordered by their prefix, never by the namespace URI the prefix is bound to: Canonical XML orders by URI (spec example 3.3: b:attr with http://www.ietf.org precedes a:attr with http://www.w3.org), so any element with two differently prefixed attributes can canonicalise differently from every conforming implementation")
 	// declarations first: comparisons against "xmlns"
 	cmpX := 0
@@ -682,8 +684,8 @@ func c19AttrOrder(c *Ctx) {
 			}
 		}
 	}
-	c.Check(cmpX >= 4, "R19e", "namespace declarations sort first", p.Pos(less.Pos()), fmt.Sprintf("%d tests against xmlns", cmpX), "the comparator no longer places the default and prefixed namespace declarations before ordinary attributes")
-	c.Check(keyCmp, "R19e", "local name is the last key", p.Pos(less.Pos()), "", "attributes in the same namespace are not ordered by local name")
+	c.Check(cmpX >= 4, c19RuleAttr, "namespace declarations sort first", p.Pos(less.Pos()), fmt.Sprintf("%d tests against xmlns", cmpX), "the comparator no longer places the default and prefixed namespace declarations before ordinary attributes")
+	c.Check(keyCmp, c19RuleAttr, "local name is the last key", p.Pos(less.Pos()), "", "attributes in the same namespace are not ordered by local name")
 }
 
 // ------------------------------------------------------------------------------ R19f
